@@ -120,12 +120,21 @@ func streamListen(c *ctx) {
 		}
 		// the first runs: three valid events, an application callback that is still busy with the first one
 		// when the shutdown signal comes (events in flight at shutdown); all three are still delivered
-		slow := n < 3
+		// ... and once with a callback that stays busy for seconds after the signal (a bounded wait for the receive
+		// loop anywhere in the shutdown path would give up before the events in flight were handed over)
+		slow := n < 4
+		hold := 30 * time.Millisecond
+		if n == 3 {
+			hold = 5500 * time.Millisecond
+			if c.scale > 1 {
+				hold = 11 * time.Second
+			}
+		}
 		if slow {
 			dgs, cls, k = [][]byte{}, []string{}, 3
 			for i := 0; i < 3; i++ {
 				dgs = append(dgs, eventDatagram(r, "valid"))
-				cls = append(cls, "valid-slow-callback")
+				cls = append(cls, map[bool]string{false: "valid-slow-callback", true: "valid-callback-busy-for-seconds"}[n == 3])
 			}
 		}
 		u, d := newClient(nil, types.BroadcastAddr{})
@@ -134,7 +143,7 @@ func streamListen(c *ctx) {
 		if slow {
 			rec.gate = make(chan struct{})
 			go func(g chan struct{}) {
-				time.Sleep(30 * time.Millisecond)
+				time.Sleep(hold)
 				close(g)
 			}(rec.gate)
 		}
@@ -164,7 +173,7 @@ func streamListen(c *ctx) {
 		end := "hung"
 		select {
 		case end = <-done:
-		case <-time.After(3 * time.Second):
+		case <-time.After(3*time.Second + hold):
 		}
 		if slow {
 			// Listen may return while the dispatch goroutine is still inside the last callback: give it time to finish
@@ -213,7 +222,7 @@ func streamListen(c *ctx) {
 		c.w.Emit("listen | "+strings.Join(hx, " "), strings.Join(canon, " ; ")+" ; "+end+" "+stable,
 			append([]string{fmt.Sprintf("listen/len%d", k)}, prefixAll("class/", cls)...)...)
 	}
-	c.w.Notes = append(c.w.Notes, "listen stream: sequences of 0..8 datagrams over the classes valid / v6.62 (0x19) / no-event / short / long / serial 0 / wrong code / wrong protocol id / 0x19 with another code / bad boolean / non-BCD nibble / impossible calendar value / random mutation, played through the real Listen() with the hooked driver (one reused receive buffer), callbacks recorded in order, shutdown by signal, statuses re-read after the buffer was reused")
+	c.w.Notes = append(c.w.Notes, "listen stream: sequences of 0..8 datagrams over the classes valid / v6.62 (0x19) / no-event / short / long / serial 0 / wrong code / wrong protocol id / 0x19 with another code / bad boolean / non-BCD nibble / impossible calendar value / random mutation, played through the real Listen() with the hooked driver (one reused receive buffer), callbacks recorded in order, shutdown by signal, statuses re-read after the buffer was reused; three runs with a callback still busy when the signal comes and one with a callback busy for 5.5 s (widened: 11 s) after it")
 }
 
 func prefixAll(p string, xs []string) []string {
